@@ -17,6 +17,7 @@ func init() {
 			"no unsafe.String; batch aggregators stateless",
 			"PV-WHOLE SetAttrs visits every attribute whatever the map order; fetchContainers lists anew",
 			"the daemon stream is read with io.ReadFull / io.CopyN only",
+			"PV-VERBATIM series label names are the record's label names (no two labels can collapse into one name, whose order would follow map iteration)",
 		},
 		NotDecided: []string{"the race detector's dynamic view", "ties in unstable sorts (the property excludes equal timestamps)", "64-bit hash collisions", "map stores inside a region are assumed to hit distinct keys (commutative)"},
 		Rules: func(r *Run) {
@@ -39,6 +40,7 @@ func init() {
 			ruleSetAttrsWhole(r)
 			ruleFetchContainers(r)
 			ruleDaemonLog(r)
+			ruleAggLabelNamesVerbatim(r)
 		},
 	})
 }
